@@ -20,7 +20,9 @@ import (
 	"fmt"
 	"io"
 	"os"
+	"regexp"
 	"sort"
+	"strconv"
 	"strings"
 	"sync"
 	"sync/atomic"
@@ -85,6 +87,79 @@ func bodyKey(b []byte) string {
 	}
 	s := sha256.Sum256(b)
 	return fmt.Sprintf("len%d:sha256:%s", len(b), hex.EncodeToString(s[:12]))
+}
+
+// strKey: strings travel in traces as they are, long ones (URIs, tags, header values beyond 128 bytes)
+// as length + SHA-256 prefix -- on the file side and on the delivery side alike.
+func strKey(s string) string {
+	if len(s) <= 128 {
+		return s
+	}
+	h := sha256.Sum256([]byte(s))
+	return fmt.Sprintf("len%d:sha256:%s", len(s), hex.EncodeToString(h[:12]))
+}
+
+// Macros of the TLC alphabets (TLA+ strings stay short and free of control characters):
+// {TAB} a tab; {Ln} n bytes of URL-safe text; in body fields {Bn} n binary bytes (all byte values,
+// i.e. newlines, CR, '[' included), {Tn} n bytes of ASCII text with quotes, backslashes, newlines.
+const afAlnum = "0123456789abcdefghijklmnopqrstuvwxyz"
+
+func afLong(n int) string {
+	b := make([]byte, n)
+	for i := range b {
+		b[i] = afAlnum[(i*7+i/36)%36]
+	}
+	return string(b)
+}
+
+func afBin(n int) []byte {
+	b := make([]byte, n)
+	for i := range b {
+		b[i] = byte((i*131 + 89) % 256)
+	}
+	return b
+}
+
+func afText(n int) []byte {
+	const ch = "abc XYZ019\n\r\t\"\\{}[]:,<>&'"
+	b := make([]byte, n)
+	for i := range b {
+		b[i] = ch[(i*5+i/len(ch))%len(ch)]
+	}
+	return b
+}
+
+var afMacro = regexp.MustCompile(`\{(TAB|L[0-9]+)\}`)
+
+func afExpand(s string) string {
+	if !strings.Contains(s, "{") {
+		return s
+	}
+	return afMacro.ReplaceAllStringFunc(s, func(m string) string {
+		if m == "{TAB}" {
+			return "\t"
+		}
+		n, _ := strconv.Atoi(m[2 : len(m)-1])
+		return afLong(n)
+	})
+}
+
+func afBodyBytes(s string) []byte {
+	if len(s) > 3 && s[0] == '{' && s[len(s)-1] == '}' && (s[1] == 'B' || s[1] == 'T') {
+		n, err := strconv.Atoi(s[2 : len(s)-1])
+		if err != nil {
+			panic("body macro " + s)
+		}
+		if s[1] == 'B' {
+			return afBin(n)
+		}
+		return afText(n)
+	}
+	b, err := hex.DecodeString(s)
+	if err != nil {
+		panic(err)
+	}
+	return b
 }
 
 var afTypeName = map[string]string{"uri": "uri", "uripost": "uripost", "raw": "raw", "json": "http/json"}
@@ -170,13 +245,19 @@ func afReadCases(path string) []*afCase {
 			panic(fmt.Sprintf("%s: %v", path, err))
 		}
 		for i := range c.Items {
-			if e := c.Items[i].E; e != nil {
-				b, err := hex.DecodeString(e.Body)
-				if err != nil {
-					panic(err)
+			it := &c.Items[i]
+			it.Val = afExpand(it.Val)
+			if e := it.E; e != nil {
+				e.URI, e.Tag, e.Host = afExpand(e.URI), afExpand(e.Tag), afExpand(e.Host)
+				for _, h := range e.Headers {
+					h[1] = afExpand(h[1])
 				}
-				e.body = b
+				e.body = afBodyBytes(e.Body)
+				e.Body = bodyKey(e.body)
 			}
+		}
+		for i := range c.Conf.Chosen {
+			c.Conf.Chosen[i] = afExpand(c.Conf.Chosen[i])
 		}
 		out = append(out, c)
 	}
@@ -206,6 +287,9 @@ func afRunCase(c *afCase) {
 		}
 	}
 	c.Obs = obs
+	for i := range c.Conf.Chosen {
+		c.Conf.Chosen[i] = strKey(c.Conf.Chosen[i])
+	}
 	// drop the bytes of long bodies: the trace carries their bodyKey
 	for i := range c.Items {
 		if c.Items[i].E != nil {
@@ -360,9 +444,9 @@ func afProject(a core.Ammo) afDeliv {
 		return afDeliv{Method: fmt.Sprintf("<%T>", a), Headers: [][]string{}}
 	}
 	req, sample := ga.Request()
-	d := afDeliv{Method: req.Method, URI: req.URL.RequestURI(), Host: req.Host, Headers: [][]string{}, Tag: sample.Tags()}
+	d := afDeliv{Method: req.Method, URI: strKey(req.URL.RequestURI()), Host: strKey(req.Host), Headers: [][]string{}, Tag: strKey(sample.Tags())}
 	for k, vs := range req.Header {
-		d.Headers = append(d.Headers, []string{k, strings.Join(vs, ", ")})
+		d.Headers = append(d.Headers, []string{k, strKey(strings.Join(vs, ", "))})
 	}
 	sort.Slice(d.Headers, func(i, j int) bool { return d.Headers[i][0] < d.Headers[j][0] })
 	var body []byte
